@@ -59,6 +59,15 @@ fn check_one<CS: BbsCiphersuite>(rep: &Report, ck: &str, c: &Case) -> CheckResul
         Ok(s) => s,
         Err(e) => return rep.fail(ck, "sign-failed", format!("sign returned {:?}", e), cj()),
     };
+    // in every second case the signature is first offered with a wrong statement (another header, one message
+    // fewer) - whatever the answer, the verdict on the true statement must not depend on it
+    if c.key.ikm.seed % 2 == 0 {
+        let _ = sig.verify(pk, m_arg, Some(b"not the header"));
+        if l >= 1 {
+            let _ = sig.verify(pk, Some(&msgs[..l - 1]), header.as_deref());
+        }
+        rep.class("verified-after-a-refused-verification-of-the-same-signature");
+    }
     rep.eval(ck, 1);
     if let Err(e) = sig.verify(pk, m_arg, header.as_deref()) {
         return rep.fail(
@@ -310,7 +319,7 @@ pub fn run(ctx: &Ctx, rep: &Report) -> Meta {
     Meta {
         rule: "cases = (suite, key spec, header in {None, Some(b\"\"), bytes}, message vector) from edge-weighted sets, each run under BOTH suites; \
                oracle = sign Ok, verify Ok, 80-byte round trip equal and verifying, None/empty equivalence of header and message list (byte-identical signatures, cross verification); \
-               half of the cases are preceded by a warm-up history of unrelated legal calls on the same thread (other suite, blind interface, custom api_ids, refused operations); a cold-start contention phase (all workers signing and verifying vectors of 1..130 messages at once), a size sweep over every L in 0..=130 (quick) / 0..=520 (thorough), verification repeated on a freshly started thread for a quarter of the cases; four long-lived threads with 320 (quick) / 2000 (thorough) sign / verify rounds each in sequence; non-trivial = outside the fixture envelope (fixture key and L in {1,10} and header length in {0,16}); distinct by SHA-256 fingerprint of the case"
+               half of the cases are preceded by a warm-up history of unrelated legal calls on the same thread (other suite, blind interface, custom api_ids, refused operations); a cold-start contention phase (all workers signing and verifying vectors of 1..130 messages at once), a size sweep over every L in 0..=130 (quick) / 0..=520 (thorough), in every second case the signature is first offered with a wrong header and a shortened message list; verification repeated on a freshly started thread for a quarter of the cases; four long-lived threads with 320 (quick) / 2000 (thorough) sign / verify rounds each in sequence; non-trivial = outside the fixture envelope (fixture key and L in {1,10} and header length in {0,16}); distinct by SHA-256 fingerprint of the case"
             .into(),
         assumptions: vec![
             "library linked as an ordinary dependency (cfg(not(test)), features bbsplus+bbsplus_blind+cl03)".into(),
